@@ -33,7 +33,7 @@ def gen_line(rng, shape):
     if shape == '8bit':
         return bytes(rng.choice(b'ab\xe4\xf6\xfc\x80\xff\x00\x01\t') for _ in range(rng.randrange(1, 30)))
     if shape == 'hdr':
-        return rng.choice([b'Subject: x', b'X-A: b', b'To: someone', b'Received: from y', b'received: z', b'Delivered-To: nobody@example.net',
+        return rng.choice([b'Subject: x', b'X-A: b', b'To: someone', b'Received: from y', b'received: z', b'Delivered-To: nobody@example.net', b'Delivered-To: alice@example.org', b'delivered-to: CAROL@example.org',
                            b'\tcontinued', b'Date: Tue, 1 Jan 2030 00:00:00 +0000', b'From: <a@b.example>', b'MESSAGE-ID: <1@x>', b'date:x',
                            b'Content-Type: text/plain'])
     return bytes(rng.choice(alpha) for _ in range(rng.randrange(1, 70)))
